@@ -12,6 +12,8 @@ import (
 	"sync/atomic"
 	"time"
 
+	"github.com/evstack/ev-node/pkg/store"
+
 	"verifharness/vk"
 	"verifharness/world"
 )
@@ -78,6 +80,7 @@ func contains(xs []uint64, x uint64) bool {
 // obs is the shared monitor state of one node across its processes.
 type obs struct {
 	r             *vk.Run
+	lastPersisted uint64 // largest DA-included height seen in a persist write
 	viol          []string
 	mu            sync.Mutex
 	lastD         uint64 // highest DA-included height ever observed (also across restarts)
@@ -94,6 +97,40 @@ func (o *obs) bad(f string, a ...any) {
 		o.viol = append(o.viol, fmt.Sprintf(f, a...))
 	}
 	o.mu.Unlock()
+}
+
+// recordedDA reads the DA height the node recorded for a part of block h, through the store's own metadata API and the
+// repository's key constant. ok=false: nothing readable is recorded.
+func recordedDA(ctx context.Context, st store.Store, h uint64, part string) (uint64, bool) {
+	raw, err := st.GetMetadata(ctx, fmt.Sprintf("%s/%d/%s", store.RollkitHeightToDAHeightKey, h, part))
+	if err != nil || len(raw) != 8 {
+		return 0, false
+	}
+	return binary.LittleEndian.Uint64(raw), true
+}
+
+// recorded judges what the node recorded for DA-included block h (d = reported DA-included height): a recorded height
+// must be one at which the blob really is. A missing record says nothing by itself, but a block without a record below
+// one that has a record lost it.
+func (o *obs) recorded(ctx context.Context, st store.Store, h, d uint64, hasData bool, ix daIndex) {
+	o.r.Hit("recorded-da-heights")
+	hh, ok1 := recordedDA(ctx, st, h, "h")
+	dd, ok2 := recordedDA(ctx, st, h, "d")
+	if ok1 && !contains(ix.hdr[h], hh) {
+		o.bad("recorded header DA height %d of block %d holds no header blob of that block (blobs are at %v)", hh, h, ix.hdr[h])
+	}
+	if ok2 && hasData && !contains(ix.data[h], dd) {
+		o.bad("recorded data DA height %d of block %d holds no data blob of that block (blobs are at %v)", dd, h, ix.data[h])
+	}
+	if !ok1 || (hasData && !ok2) {
+		o.r.Count("da_included_blocks_without_recorded_da_height", 1)
+		for g := h + 1; g <= d; g++ {
+			if _, ok := recordedDA(ctx, st, g, "h"); ok {
+				o.bad("block %d is DA-included but its DA heights are not recorded, although those of block %d are", h, g)
+				return
+			}
+		}
+	}
 }
 
 // onFinal runs at the start of every SetFinal(h): the height must be the next one, must not be persisted or reported yet.
@@ -131,10 +168,15 @@ func (o *obs) onWrite(rec world.WriteRec) {
 		var b [8]byte
 		fmt.Sscanf(rec.Vals[i], "%02x%02x%02x%02x%02x%02x%02x%02x", &b[0], &b[1], &b[2], &b[3], &b[4], &b[5], &b[6], &b[7])
 		v := binary.LittleEndian.Uint64(b[:])
-		o.r.Hit("persist-after-finalize")
 		o.mu.Lock()
+		if v <= o.lastPersisted {
+			o.mu.Unlock()
+			continue // re-writing a value that is durable already changes nothing
+		}
+		o.lastPersisted = v
 		fin := len(o.finals) > 0 && o.finals[len(o.finals)-1] == v
 		o.mu.Unlock()
+		o.r.Hit("persist-after-finalize")
 		if !fin {
 			o.bad("DA-included height %d persisted without a preceding SetFinal(%d)", v, v)
 		}
@@ -213,19 +255,7 @@ func (a *agg) soundness(d uint64) {
 			return
 		}
 		// recorded DA heights
-		hh, ok1 := readU64(a.im, fmt.Sprintf("/m/rhb/%d/h", h))
-		dd, ok2 := readU64(a.im, fmt.Sprintf("/m/rhb/%d/d", h))
-		a.o.r.Hit("recorded-da-heights")
-		if !ok1 || !ok2 {
-			a.o.bad("block %d is DA-included but its DA heights are not recorded", h)
-			return
-		}
-		if !contains(ix.hdr[h], hh) {
-			a.o.bad("recorded header DA height %d of block %d holds no header blob of that block (blobs are at %v)", hh, h, ix.hdr[h])
-		}
-		if len(data.Txs) > 0 && !contains(ix.data[h], dd) {
-			a.o.bad("recorded data DA height %d of block %d holds no data blob of that block (blobs are at %v)", dd, h, ix.data[h])
-		}
+		a.o.recorded(a.ctx, a.n.Store, h, d, len(data.Txs) > 0, ix)
 	}
 }
 
@@ -264,6 +294,17 @@ func (a *agg) do(act string) error {
 		return nil
 	case act == "I":
 		return a.l.SignalBarrier("daIncluder", "daIncluder")
+	case strings.HasPrefix(act, "X"):
+		// the process dies inside an inclusion pass, after k more durable writes
+		k := 0
+		fmt.Sscanf(act[1:], "%d", &k)
+		a.n.DS.CrashAfter(k)
+		_ = a.l.SignalBarrier("daIncluder", "daIncluder") // the loop may die on the failing write
+		if a.n.DS.Crashed() {
+			a.o.r.Hit("crash-inside-inclusion-pass")
+		}
+		a.n.DS.CrashNow()
+		return a.do("C")
 	case act == "R", act == "C":
 		if err := a.l.Stop(); err != nil {
 			return err
@@ -347,7 +388,10 @@ func runAgg(r *vk.Run, c Case) {
 			}
 		}
 		// the node's own wake-ups of the inclusion check must suffice: no external tick here
-		selfWoken := waitD(func() uint64 { return a.o.getD() }, a.height())
+		selfWoken := false
+		if !a.gapAtCrash {
+			selfWoken = waitD(func() uint64 { return a.o.getD() }, a.height())
+		}
 		if !selfWoken && !a.gapAtCrash {
 			for i := 0; i < 3; i++ {
 				_ = a.do("I")
@@ -416,7 +460,9 @@ func genAgg(rng *rand.Rand, id int, repeat bool, allowCrash bool) Case {
 		case p < 97:
 			c.Actions = append(c.Actions, "R")
 		default:
-			if allowCrash {
+			if allowCrash && rng.Intn(3) > 0 {
+				c.Actions = append(c.Actions, fmt.Sprintf("X%d", rng.Intn(9)))
+			} else if allowCrash {
 				c.Actions = append(c.Actions, "C")
 			} else {
 				c.Actions = append(c.Actions, "R")
@@ -459,19 +505,7 @@ func runFull(r *vk.Run, p *world.Produced, c Case, acts []world.Action) {
 				o.bad("DA-included height is %d but the data of non-empty block %d has not been observed on the DA layer", d, h)
 				return
 			}
-			hh, ok1 := readU64(f.Im, fmt.Sprintf("/m/rhb/%d/h", h))
-			dd, ok2 := readU64(f.Im, fmt.Sprintf("/m/rhb/%d/d", h))
-			r.Hit("recorded-da-heights")
-			if !ok1 || !ok2 {
-				o.bad("block %d is DA-included but its DA heights are not recorded", h)
-				return
-			}
-			if !contains(ix.hdr[h], hh) {
-				o.bad("recorded header DA height %d of block %d holds no header blob of that block (blobs are at %v)", hh, h, ix.hdr[h])
-			}
-			if len(p.Txs[p.Idx(h)]) > 0 && !contains(ix.data[h], dd) {
-				o.bad("recorded data DA height %d of block %d holds no data blob of that block (blobs are at %v)", dd, h, ix.data[h])
-			}
+			o.recorded(ctx, cur.Load().Store, h, d, len(p.Txs[p.Idx(h)]) > 0, ix)
 		}
 	}
 	chainH := func() uint64 { h, _ := f.N.Store.Height(ctx); return h }
@@ -571,6 +605,15 @@ func genFull(rng *rand.Rand, p *world.Produced, id int) (Case, []world.Action) {
 		}
 	}
 	var acts []world.Action
+	// one case in three: the node first receives a prefix of the chain over P2P and applies it - none of it is on the DA
+	// layer yet, so none of it may count as DA-included until the scan has seen the blobs
+	if rng.Intn(3) == 0 {
+		upTo := rng.Intn(len(p.Heights))
+		acts = append(acts, world.Action{Kind: "p2p-h", I: upTo}, world.Action{Kind: "p2p-d", I: upTo})
+		if rng.Intn(2) == 0 {
+			acts = append(acts, world.Action{Kind: "include"})
+		}
+	}
 	for len(items) > 0 {
 		k := 1 + rng.Intn(4)
 		if k > len(items) {
@@ -619,9 +662,21 @@ func Run(r *vk.Run) {
 		id++
 	}
 	// trigger regions
-	for i := 0; i < r.N(40, 400); i++ {
+	for i := 0; i < r.N(120, 1200); i++ {
 		jobs = append(jobs, job{c: genAgg(rng, id, false, true)})
 		id++
+	}
+	// crafted: three accepted blocks wait for inclusion and the process dies after the k-th durable write of the pass
+	// that includes them (record header DA height, record data DA height, [finalize], persist the new height - per block)
+	for _, shape := range [][]string{{"P", "P", "P"}, {"P", "Pe", "P"}, {"Pe", "P", "Pe"}, {"Pe", "Pe", "Pe"}} {
+		for _, initial := range []uint64{1, 3} {
+			for k := 0; k <= 10; k++ {
+				c := Case{ID: id, Node: "aggregator", Initial: initial}
+				c.Actions = append(append([]string{}, shape...), "H", "D", fmt.Sprintf("X%d", k), "P", "H", "D", "I", "R", "I")
+				jobs = append(jobs, job{c: c})
+				id++
+			}
+		}
 	}
 	for i := 0; i < r.N(30, 300); i++ {
 		jobs = append(jobs, job{c: genAgg(rng, id, true, false)})
@@ -631,7 +686,7 @@ func Run(r *vk.Run) {
 	keys := world.NewKeys("proposer")
 	for ci := 0; ci < r.N(8, 60); ci++ {
 		n := 5 + rng.Intn(8)
-		spec := world.ChainSpec{Initial: 1}
+		spec := world.ChainSpec{Initial: []uint64{1, 1, 4}[ci%3]}
 		for b := 0; b < n; b++ {
 			if rng.Intn(3) == 0 {
 				spec.Blocks = append(spec.Blocks, nil)
